@@ -359,6 +359,8 @@ def gen_braket_groups(rng, pool, n_ops, allow_no, no_general):
     budget = max(2, n_ops)
     n_bra = rng.choice([0, 1, 1, 2]) if budget >= 4 else rng.choice([0, 1])
     n_ket = rng.choice([0, 1, 1, 2]) if budget >= 4 else rng.choice([0, 1])
+    if no_general and rng.random() < 0.7:
+        n_ket = n_bra = max(1, min(n_bra, (budget - 2) // 4))
     for _ in range(n_bra):
         groups.append((False, [Fd(new("occ")), F(new("virt"))]))
     left = budget - 2 * (n_bra + n_ket)
@@ -368,7 +370,7 @@ def gen_braket_groups(rng, pool, n_ops, allow_no, no_general):
         sp = [rng.choice(["occ", "virt", "general", "general"])
               for _ in range(2 * rank)]
         g = [Fd(new(x)) for x in sp[:rank]] + [F(new(x)) for x in sp[rank:]]
-        is_no = allow_no and rng.random() < 0.5
+        is_no = allow_no and rng.random() < (0.8 if no_general else 0.5)
         if is_no and not no_general and "general" in sp:
             # same block with occ/virt indices instead
             sp = [x if x != "general" else rng.choice(["occ", "virt"])
@@ -392,20 +394,21 @@ def gen_braket_groups(rng, pool, n_ops, allow_no, no_general):
 
 
 def gen_wicks_case(rng, pool, n_ops, allow_no=True, no_general=False,
-                   free_general=False, label="", p_contract=0.6):
+                   free_general=False, label="", p_contract=0.6,
+                   avoid_power=True):
     """random product.  Operator indices are either contracted with a tensor
     or free; free general indices only if `free_general`; general indices
     inside NO groups only if `no_general`."""
-    if rng.random() < 0.55:
+    if rng.random() < 0.55 or (no_general and rng.random() < 0.8):
         groups = gen_braket_groups(rng, pool, n_ops, allow_no, no_general)
     else:
         ops = gen_string(rng, n_ops, pool,
                          style=rng.choice(["pairs", "pairs", "shuffled",
                                            "random", "allgen", "ov"]))
         # the same operator twice in a row is a_x a_x = 0 (sympy stores it as
-        # a power; covered by a dedicated case): avoid it here
+        # a power): mostly avoided, it makes the whole product vanish
         for k in range(1, len(ops)):
-            if type(ops[k]) is type(ops[k - 1]) and \
+            if avoid_power and type(ops[k]) is type(ops[k - 1]) and \
                     ops[k].args[0] is ops[k - 1].args[0]:
                 ops[k] = (F if isinstance(ops[k], Fd) else Fd)(ops[k].args[0])
         # split into groups
